@@ -44,7 +44,9 @@ DoApiTxn ==
                    IN  /\ Chk(Ev.nops = Len(ops), "C03", "the model API produced another number of operations than the call stands for",
                               [call |-> CallKey(Ev.call), got |-> Ev.nops, want |-> Len(ops)])
                        /\ CheckTxn(e, db)
-                       /\ Chk(~(r.ok /\ ~Ev.committed), "C03",
+                       \* (the engine checks dangling references before it collects unreferenced rows: a rejection of
+                       \* that kind is the engine's known over-rejection, not the API's doing)
+                       /\ Chk(~(r.ok /\ ~Ev.committed /\ Ev.errKind # "refs"), "C03",
                               "the transaction the model API built fails although what the call stands for commits",
                               [call |-> CallKey(Ev.call), errIdx |-> Ev.errIdx, errKind |-> Ev.errKind, commitErr |-> Ev.commitErr])
     /\ dbs' = [dbs EXCEPT ![Ev.db] = DbJ(Ev.post)]
